@@ -494,6 +494,27 @@ func (c *simClient) LookupServerKeys(ctx context.Context, via spec.ServerName, r
 				c.w.r.Fault("notary_sig_unknown_key")
 				rr.keys = counterSign(n, c.w.rogueAs(n), rr.keys)
 				rr.kind, rr.good = joinKind(rr.kind, "notary_unknown_key"), false
+			case t.Chance(c.faultRate / 2):
+				// signed under the key ID the client configured, but not with that key
+				c.w.r.Fault("notary_sig_wrong_key")
+				forged := *c.w.rogue.Current()
+				forged.ID = n.Keys[0].ID
+				rr.keys = counterSign(n, &forged, rr.keys)
+				rr.kind, rr.good = joinKind(rr.kind, "notary_wrong_key"), false
+			case t.Chance(c.faultRate / 2):
+				c.w.r.Fault("notary_sig_corrupt")
+				rr.keys = counterSign(n, n.Keys[0], rr.keys)
+				rr.keys.Raw = flipSignature(t, rr.keys.Raw, string(n.Name), string(n.Keys[0].ID))
+				rr.kind, rr.good = joinKind(rr.kind, "notary_sig_corrupt"), false
+			case t.Chance(c.faultRate / 4):
+				// a response whose signatures member is not an object
+				c.w.r.Fault("notary_signatures_malformed")
+				var m map[string]json.RawMessage
+				if json.Unmarshal(rr.keys.Raw, &m) == nil {
+					m["signatures"] = json.RawMessage(`"none"`)
+					rr.keys.Raw, _ = json.Marshal(m)
+				}
+				rr.kind, rr.good = joinKind(rr.kind, "notary_signatures_malformed"), false
 			default:
 				rr.keys = counterSign(n, n.Keys[0], rr.keys)
 			}
